@@ -832,7 +832,10 @@ class Interp:
                     from usim import time
                     target = (time + self.tv(n[1])) if n[0] == 'delay' else self.cond(n[1])
                 step += 1
-                self.emit(lbl, 'pyyield', [step, self.py_index.get(id(target), -1), 0, 0])
+                if h == 'yieldcoro':
+                    self.emit(lbl, 'pyyield', [step, -2, ins[2], 0 if ins[3] is None else 1] + tpair(ins[1], self.kind))
+                else:
+                    self.emit(lbl, 'pyyield', [step, self.py_index.get(id(target), -1), 0, 0])
                 try:
                     r = yield target
                 except GeneratorExit:
